@@ -1,6 +1,6 @@
 (* C17/Proofs3.v — the three signals satisfy the split contract; the generic theorems of Proofs2.v
    restated over [split_ok]; Config.Validate; the refusal rule of consume. *)
-From Verif Require Import Common.Base C17.Model C17.Proofs1 C17.Proofs2.
+From Verif Require Import Common.Base C17.Model C17.Bounded C17.Proofs1 C17.Proofs2 C17.ProofsB.
 From Coq Require Import Permutation.
 
 (* what the batch processor needs from a signal's count / split / item enumeration *)
@@ -121,6 +121,45 @@ Proof.
   - apply validate_max_valid; exact V.
   - apply validate_timeout_nonneg; exact V.
 Qed.
+
+
+Section Wrap2.
+  Context {R X : Type}.
+  Variable count : list R -> nat.
+  Variable split : nat -> list R -> list R * list R.
+  Variable items : list R -> list X.
+  Hypothesis OK : split_ok count split items.
+  Variable c : cfg.
+
+  Lemma accounting_l t0 ls : validate c = 0%N ->
+    let x := bp_run count split c t0 ls in
+    Forall (fun s => s_done s = true) (fst x) ->
+    Permutation (left_tagged items (fst x)) (accepted_tagged items c ls (snd x)).
+  Proof. destruct OK as (A & B & C & D & _). intros V. apply accounting_g; auto. apply validate_max_valid; exact V. Qed.
+
+  Lemma groups_distinct_l t0 ls : NoDup (map (@s_md R) (fst (bp_run count split c t0 ls))).
+  Proof. destruct OK as (A & B & C & D & _). apply groups_distinct_g with (items := items); auto. Qed.
+
+  Lemma refines_l cap t0 bl :
+    b_st (brun count split c cap t0 bl) = bp_run count split c t0 (b_trace (brun count split c cap t0 bl)).
+  Proof. exact (refines_g count split c cap t0 bl). Qed.
+
+  Lemma progress_l cap t0 bl now i s md p ws' :
+    let b := brun count split c cap t0 bl in
+    nth_error (fst (b_st b)) i = Some s -> s_done s = false -> s_chan s <> [] ->
+    pop_waiter i (b_wait b) = Some ((md, p), ws') -> target c md (fst (b_st b)) = Some i ->
+    let b' := bstep count split c cap b (BRecv now i) in
+    b_wait b' = ws' /\ snd (b_st b') = snd (b_st b) ++ [0%N]
+    /\ exists s', nth_error (fst (b_st b')) i = Some s' /\ In p (s_chan s') /\ s_done s' = false.
+  Proof.
+    destruct OK as (A & B & C & D & _). intros b. apply (@progress_g R X count split items c cap A B C D t0).
+    apply refines_g.
+  Qed.
+End Wrap2.
+
+Lemma done_frozen_l {R} count split c now (s : shard (R := R)) : s_done s = true ->
+  sh_recv count split c now s = s /\ sh_timer split c now s = s /\ sh_seen count split c now s = s.
+Proof. intros Hd. unfold sh_recv, sh_timer, sh_seen. rewrite Hd. auto. Qed.
 
 (* the refusal rule of consume, by computation on the code of the model (any state) *)
 Lemma consume_refusal {R} c now md (p : list R) st :
